@@ -20,7 +20,7 @@ RULE = ('cases are histories of 4-14 steps: PGPy signing operations over generat
         'implementations; a run is non-trivial when at least one artifact was verified by PGPy after the hop and by the '
         'reference peer; distinct = distinct (step-kind sequence, signature kinds, option-name sets) among non-trivial runs')
 TIERS = {'quick': {'runs': 3000, 'budget_s': 70}, 'thorough': {'runs': 200000, 'budget_s': 1500}}
-PROBES = ('live_object_verified', 'kind_doc', 'kind_text', 'kind_timestamp', 'kind_msg', 'kind_cleartext', 'kind_cert_self', 'kind_cert_other',
+PROBES = ('key_form_selfsigs_checked', 'live_object_verified', 'kind_doc', 'kind_text', 'kind_timestamp', 'kind_msg', 'kind_cleartext', 'kind_cert_self', 'kind_cert_other',
           'kind_uattr_cert', 'kind_direct_other', 'kind_direct_self', 'kind_bind', 'kind_revoke_key', 'kind_revoke_subkey',
           'kind_revoke_uid', 'kind_revoker', 'kind_attest', 'ref_signed', 'ref_key_full_verify', 'perturb_armor', 'perturb_reframe',
           'perturb_crlf', 'sign_refused', 'rsa', 'dsa', 'ecdsa', 'eddsa', 'same_second_pair', 'subkey_signed')
@@ -158,6 +158,22 @@ def execute(case, ctx):
     clock.set(case['config'].get('start_us', 1_600_000_000_000_000))
     for k in w.keys.values():
         ctx.probe({1: 'rsa', 17: 'dsa', 19: 'ecdsa', 22: 'eddsa'}.get(int(k.key_algorithm), 'rsa'))
+    # the self-certifications, bindings and revocations PGPy made while building the keys, in every form a key is handed on:
+    # its own export, the export of its public half, the export of a copy - all must be valid for the independent verifier
+    # (left 16 bits included)
+    import copy as _copy
+    from ..ref import tkey as rtkey
+    for name in sorted(w.keys):
+        k = w.keys[name]
+        for form, blob in (('private', lambda: bytes(k)), ('public-half', lambda: bytes(k.pubkey)), ('copy', lambda: bytes(_copy.copy(k))),
+                           ('copy-of-public-half', lambda: bytes(_copy.copy(k.pubkey)))):
+            ctx.checked()
+            ctx.probe('key_form_selfsigs_checked')
+            tk = rtkey.parse_keys(blob())[0]
+            bad = [note for comp, sg, ok, note in rtkey.check_self_sigs(tk, check_left16=True) if not ok]
+            if bad:
+                ctx.viol('C02:ref-rejects:key-selfsigs:%s' % form, 'the reference peer rejects %d self-signature(s) in the %s export of %s: %s'
+                         % (len(bad), form, name, bad[:3]))
     kinds = []
     last_sig_second = None
     for step in case['steps']:
